@@ -245,9 +245,11 @@ PROPS["C02"] = dict(
     rule="BUFK1 (see C01) including bigbuff.Range and Buffer.Range with scripted callbacks (continue/stop/panic); non-trivial = history with a "
          "successful Rollback followed by a value read, or a Range call",
     level_text="Theorems (Properties/C02.v): Rollback/Commit step specifications, empty commit/rollback are error no-ops, the pending window is "
-               "commit..commit+delta-1, commits are permanent under every later schedule. Range/Buffer.Range are executable composites in the model "
-               "(range_loop) tied by correspondence only (their theorems are not yet stated: partial).",
-    level_note=_BUF_NOTE + " PARTIAL: the Range clauses are decided by correspondence with the executable composite, not by a separate theorem.",
+               "commit..commit+delta-1, commits are permanent under every later schedule; Range and Buffer.Range (range_loop composite): every visited value is "
+               "the consecutive log entry from the entry commit point, everything visited is committed except the in-flight value of a panicking callback "
+               "which the next Get returns again, nothing is left uncommitted whatever the end, a Get failure leaves the cursor at the first unvisited value, "
+               "a value put by a callback is in the log before that value's Commit, Buffer.Range stops at the end of the buffer with nil and never blocks.",
+    level_note=_BUF_NOTE + " The Range theorems are about the interleaving-free composite; interleavings with the cleaner are explored by the checker only.",
     stages=[corr_stage("BUFK1", 500, 8000, feature=feat_buf("C02"), seeds=3, params={"salt": 2})],
 )
 PROPS["C04"] = dict(
